@@ -78,7 +78,7 @@ Lemma ex_fs_ok : FsOK cbytes Z ex_fs.
 Proof. apply FsOKb_sound. vm_compute. reflexivity. Qed.
 
 (* F42: Document("text"); manifest.add_full_path("manifest.rdf") (media type ""); save.  FIXED42OFF = every repair but F42's *)
-Definition FIXED42OFF := mkFx true true true true true true true true true false.
+Definition FIXED42OFF := mkFx true true true true true true true true true false true.
 Definition f42_state : cfs * cdoc := fst (cstep FIXED (tmpl_fs, mkD (mkC [] [] None PZip) []) (ONew 1 99)).
 Lemma f42_refuted : exists (s : cfs * cdoc) (o1 o2 : cop),
   cPkgOKb (fst s) (snd s) = true /\
@@ -87,7 +87,7 @@ Lemma f42_refuted : exists (s : cfs * cdoc) (o1 o2 : cop),
 Proof. exists f42_state, (OImport RDF (CB 9) EMPTYMT), (OSave (TBuf 7) PZip false). repeat split; vm_compute; reflexivity. Qed.
 
 (* F35: a path-opened package without manifest.rdf; the user provides one and lists it; save.  FIXED35OFF = every repair but F35's *)
-Definition FIXED35OFF := mkFx true true true true true true true true false true.
+Definition FIXED35OFF := mkFx true true true true true true true true false true true.
 Definition f35_fs : cfs := [(1, FZip [(0,true,CB 44);(5,false,CS (CX 45 46 [] [47]));(2,false,CS (CX 51 52 [] [18]));(4,false,CS (CX 55 56 [] [57]));(3,false,CS (CX 58 59 [] [60]));
                                    (1,false,CS (CX 0 0 [((-1),44);(5,22);(2,22);(4,22);(3,22)] []))])].
 Lemma f35_refuted : exists (s : cfs * cdoc) (o1 o2 : cop) (n : name),
